@@ -896,3 +896,52 @@ impl<T, B> ErrorExt for BufResult<T, B> {
         self.0.as_io_error()
     }
 }
+
+/// Verification hooks: let an out-of-tree harness play the role of a driver (hold the reference a
+/// submitted operation leaks to the kernel, and deliver its final completion) on top of the real
+/// key / cancellation / pop logic. Compiled only with `--cfg compio_rs_compio_verif`.
+#[cfg(compio_rs_compio_verif)]
+#[doc(hidden)]
+pub mod __verif {
+    use std::io;
+
+    use crate::{DriverType, Entry, Key, OpCode, Proactor, key::ErasedKey};
+
+    /// The reference a driver keeps for an operation that was accepted for submission.
+    pub struct KernelRef(ErasedKey);
+
+    /// Build the key exactly like [`Proactor::push_with_extra`] does, without handing it to
+    /// the driver.
+    pub fn pending_key<T: OpCode + 'static>(
+        proactor: &Proactor,
+        op: T,
+        driver_ty: DriverType,
+    ) -> Key<T> {
+        Key::new(op, proactor.default_extra(), driver_ty)
+    }
+
+    /// What `Driver::push` does with an accepted operation: keep one reference.
+    pub fn kernel_ref<T>(key: &Key<T>) -> KernelRef {
+        KernelRef(key.clone().erase())
+    }
+
+    /// What a driver does on the final completion of an operation.
+    pub fn complete(kernel: KernelRef, result: io::Result<usize>) {
+        Entry::new(kernel.0, result).notify()
+    }
+
+    /// Release the driver's reference without a completion (driver teardown).
+    pub fn release(kernel: KernelRef) {
+        drop(kernel)
+    }
+
+    /// Number of strong references to the operation.
+    pub fn strong_count<T>(key: &Key<T>) -> usize {
+        thin_cell::unsync::ThinCell::count(key.erased_inner())
+    }
+
+    /// Whether the operation has a final result.
+    pub fn has_result<T>(key: &Key<T>) -> bool {
+        key.has_result()
+    }
+}
